@@ -201,8 +201,8 @@ def main():
     SETTERS = {
         "parents": lambda c, v: setattr(c, "parents", list(v)), "author": lambda c, v: setattr(c, "author", v), "committer": lambda c, v: setattr(c, "committer", v),
         "author_time": lambda c, v: setattr(c, "author_time", v), "commit_time": lambda c, v: setattr(c, "commit_time", v),
-        "author_zone": lambda c, v: (setattr(c, "author_timezone", v[0]), setattr(c, "_author_timezone_neg_utc", v[1]), setattr(c, "author_timezone", v[0])),
-        "commit_zone": lambda c, v: (setattr(c, "commit_timezone", v[0]), setattr(c, "_commit_timezone_neg_utc", v[1]), setattr(c, "commit_timezone", v[0])),
+        "author_zone": lambda c, v: (setattr(c, "author_timezone", v[0]), setattr(c, "_author_timezone_neg_utc", v[1]), setattr(c, "author_time", c.author_time)),      # (offset, then the private -0000 flag as dulwich's own code does, then a neutral public setter: the private write marks nothing dirty)
+        "commit_zone": lambda c, v: (setattr(c, "commit_timezone", v[0]), setattr(c, "_commit_timezone_neg_utc", v[1]), setattr(c, "commit_time", c.commit_time)),
         "encoding": lambda c, v: setattr(c, "encoding", v), "message": lambda c, v: setattr(c, "message", v if v is not None else b""),
         "gpgsig": lambda c, v: setattr(c, "gpgsig", v), "mergetag": lambda c, v: setattr(c, "mergetag", list(v)),
         "extra": lambda c, v: (setattr(c, "_extra", list(v)), setattr(c, "message", c.message)),
